@@ -104,6 +104,29 @@ func tkUnclosedPool() []string {
 	return out
 }
 
+// tkStatelessPool: characters that no state of the template tokenizer takes (U+FFFF, characters beyond U+FFFF -
+// one of them with the low 16 bits of '!') are Unknown tokens of their own wherever they stand: between the
+// opening braces of a tag and each operator, after the operator, doubled, next to blanks, quotes and the closing
+// braces, between tags - so that dropping them (skip-unknown) must leave every other token as it was.
+func tkStatelessPool() []string {
+	var out []string
+	for _, z := range []string{"\uffff", "😀", "\U00010021"} {
+		for _, open := range []string{"{{", "{{{"} {
+			cl := strings.Repeat("}", len(open))
+			for _, op := range []string{"!", "#", "^", "/"} {
+				for _, t := range []string{"Hello OZP it is a b Cworld", "OZPaCx", "OPZaC", "O ZPaC", "OZZP c C", "OZ PcC", "OPaZC", "OPa}ZC", "OP a Z b CZ", "OZP don't C", "OZP 'a' CZOPZbC",
+					"ZOPaC", "OPaCZOZ/aC", "{ZOPaC", "OZPZ", "OZP"} {
+					out = append(out, strings.NewReplacer("O", open, "C", cl, "Z", z, "P", op).Replace(t))
+				}
+			}
+			for _, t := range []string{"OZaC", "OaZC", "OZC", "OZ", "O Z C", "Oa ZZ bC", "OZ'x'C", "O'Z'ZC"} {
+				out = append(out, strings.NewReplacer("O", open, "C", cl, "Z", z).Replace(t))
+			}
+		}
+	}
+	return out
+}
+
 // tkBudget tells a run that used up its step budget from the other undecided runs: the statements require
 // every input to be tokenized into a finite stream, and the budget is some hundred times what the longest
 // input of the families needs, so such a run is reported as a tokenization that does not end.
@@ -768,6 +791,9 @@ func (c *Ctx) tkRun(kind, part string) *tkVerdict {
 	strs = append(strs, tkPool...)
 	if part != "reuse" {
 		strs = append(strs, tkQuotePool()...)
+		if kind == "mustache" {
+			strs = append(strs, tkStatelessPool()...)
+		}
 	}
 	if part == "base" {
 		strs = append(strs, tkFormatPool()...)
